@@ -8,7 +8,7 @@ import json, os, subprocess, sys, shutil, time
 VERIF = os.path.dirname(os.path.dirname(os.path.abspath(__file__)))
 PY = "/venv/bin/python"
 ROUND = int(os.environ.get("SEED_ROUND", "2"))
-MAP = {2: {"a": "c", "b": "d", "c": "e"}, 3: {"a": "f", "b": "g"}, 4: {"a": "h", "b": "i"}, 5: {"a": "j", "b": "k"}}[ROUND]
+MAP = {2: {"a": "c", "b": "d", "c": "e"}, 3: {"a": "f", "b": "g"}, 4: {"a": "h", "b": "i"}, 5: {"a": "j", "b": "k"}, 6: {"a": "l", "b": "m"}}[ROUND]
 ORIGIN = {2: "independent sub-agent (round 2) given only the property text and a scratch worktree; asked for three changes on "
              "different mechanisms, at least one needing two cooperating sites or a multi-step history",
           3: "independent sub-agent (round 3) given only the property text and a scratch worktree; asked for (a) a plausible 'improvement' "
@@ -21,7 +21,11 @@ ORIGIN = {2: "independent sub-agent (round 2) given only the property text and a
           5: "independent sub-agent (round 5) given only the property text and a scratch worktree; asked for (a) a pair of cooperating edits in two "
              "different functions, each harmless alone (demo passes with either half alone), breaking the property only together, and (b) a "
              "history-dependent defect (second or later run, base shift after a geometry step, slot replaced twice, seldom-used option combination, "
-             "early exit in a particular phase, object re-used / reloaded twice; stale state left behind by an earlier step)"}[ROUND]
+             "early exit in a particular phase, object re-used / reloaded twice; stale state left behind by an earlier step)",
+          6: "independent sub-agent (round 6) given only the property text and a scratch worktree; asked for (a) a three-way feature interaction "
+             "(invisible unless three independent conditions hold at once; demo passes with any one removed) and (b) a calling-convention / "
+             "data-form defect (extra args, one-sided / infinite bounds, integer or non-contiguous arrays, n = 1 / m = 1 / m < n, numpy-scalar "
+             "parameter values, do_logging=False / print_progress=True, objfun returning lists / the same array object, second call in one process)"}[ROUND]
 
 
 def sh(cmd):
